@@ -230,12 +230,13 @@ CHECKS = {
             {"module": "rueidis", "scenario": "cluster", "variant": "change", "quick": 500, "thorough": 50000},
             {"module": "rueidis", "scenario": "sentinel-follow", "quick": 2000, "thorough": 150000},
             {"module": "rueidis", "scenario": "sentinel-follow", "variant": "lifetime", "quick": 2500, "thorough": 200000},
+            {"module": "rueidis", "scenario": "cluster", "variant": "lifetime", "quick": 1500, "thorough": 100000},
             {"module": "rueidis", "scenario": "standalone-route", "quick": 2000, "thorough": 150000},
         ],
         "expected_probes": ["executed-but-unanswered", "request-lost", "conn-lifetime-configured", "connection-reached-its-lifetime"],
         "components": {"real": REAL, "stubs": STUBS},
         "assumptions": [
-            "all four front-ends: single node; cluster (a non-retryable write is executed at most once however it is redirected, retried or cut by faults); sentinel and standalone with replicas (connection resets incl. reset-after-execution, fail-overs, role flips: per command id the model executed a write that is neither read-only nor retryable at most once); EnableRedirect is not exercised; ConnLifetime is exercised on the single-node client (at-most-once) and on the sentinel client (sentinel-follow variant lifetime: an unchanging deployment, lifetimes of 60 ms - 1 s, a server that answers slowly around the end of a lifetime, batches with MULTI ... EXEC blocks - some refused with EXECABORT - followed by further writes); beyond the known finding (a write still unanswered when its connection expired is sent again) that variant judges, with AlwaysPipelining, that a write whose reply the client had read from the connection is not executed again; not on the standalone and cluster clients",
+            "all four front-ends: single node; cluster (a non-retryable write is executed at most once however it is redirected, retried or cut by faults); sentinel and standalone with replicas (connection resets incl. reset-after-execution, fail-overs, role flips: per command id the model executed a write that is neither read-only nor retryable at most once); EnableRedirect is not exercised; ConnLifetime is exercised on the single-node client (at-most-once) and on the sentinel client (sentinel-follow variant lifetime: an unchanging deployment, lifetimes of 60 ms - 1 s, a server that answers slowly around the end of a lifetime, batches with MULTI ... EXEC blocks - some refused with EXECABORT - followed by further writes); beyond the known finding (a write still unanswered when its connection expired is sent again) those variants judge, with AlwaysPipelining, that a write whose reply the client had read from the connection is not executed again; the cluster client gets the same treatment (cluster variant lifetime: unchanging topology, the cluster scenario's mix of single commands, multi-slot batches and transaction blocks); not on the standalone client",
             "bytes the client wrote before closing a connection are still delivered to the server (as TCP does), so a re-sent command can overtake its original",
         ],
     },
